@@ -1038,6 +1038,7 @@ def make_signal(ip, args, kwargs, node, like=None):
     si.shape_val = shape
     si.shape_of_expr = getattr(shape, 'shape_of_expr', None)       # Signal(expr.shape()): as wide as that expression
     si.reset_less = bool(concrete(kwargs.get('reset_less', False)) is True)
+    si.ctx_tokens = tuple(getattr(ip, 'ctx_tokens', ()))
     nm = kwargs.get('name')
     if isinstance(nm, str):
         si.decl_name = nm
